@@ -567,3 +567,35 @@ pub fn plugin_generate(scenario: &Value) -> LibResult<Value> {
     )?;
     Ok(out.data.get("dst").cloned().unwrap_or(Value::Null))
 }
+
+// ---------------------------------------------------------------- headers
+
+/// kind: 1 = BasicHeader, 2 = ApplicationHeader, 3 = UserHeader, 5 = Trailer. Returns (Display, JSON).
+pub fn header_parse(kind: u8, text: &str) -> LibResult<(String, Value)> {
+    use swift_mt_message::headers::*;
+    flat(guard(|| match kind {
+        1 => BasicHeader::parse(text).map(|h| (h.to_string(), serde_json::to_value(&h).unwrap_or(Value::Null))),
+        2 => ApplicationHeader::parse(text).map(|h| (h.to_string(), serde_json::to_value(&h).unwrap_or(Value::Null))),
+        3 => UserHeader::parse(text).map(|h| (h.to_string(), serde_json::to_value(&h).unwrap_or(Value::Null))),
+        _ => Trailer::parse(text).map(|h| (h.to_string(), serde_json::to_value(&h).unwrap_or(Value::Null))),
+    }))
+}
+
+/// JSON -> header -> (Display, JSON)
+pub fn header_from_json(kind: u8, v: &Value) -> LibResult<(String, Value)> {
+    use swift_mt_message::headers::*;
+    fn conv<H: serde::de::DeserializeOwned + serde::Serialize + std::fmt::Display>(v: &Value) -> Result<(String, Value), String> {
+        serde_json::from_value::<H>(v.clone()).map(|h| (h.to_string(), serde_json::to_value(&h).unwrap_or(Value::Null))).map_err(|e| e.to_string())
+    }
+    let r = guard(|| match kind {
+        1 => conv::<BasicHeader>(v),
+        2 => conv::<ApplicationHeader>(v),
+        3 => conv::<UserHeader>(v),
+        _ => conv::<Trailer>(v),
+    });
+    match r {
+        Ok(Ok(x)) => Ok(x),
+        Ok(Err(e)) => Err(LibErr::Json(e)),
+        Err(e) => Err(e),
+    }
+}
